@@ -476,17 +476,70 @@ def do_ecdsa_sig(case):
     return good(labels=labels)
 
 
+def ref_dsa_z(k, digest):
+    """FIPS 186-4, 4.6: the leftmost min(N, outlen) bits of the hash."""
+    n = k.q.bit_length()
+    z = int.from_bytes(digest, "big")
+    if len(digest) * 8 > n:
+        z >>= len(digest) * 8 - n
+    return z
+
+
+def ref_dsa_verify(k, digest, sig):
+    from ecdsa.der import remove_sequence, remove_integer
+    body, rest = remove_sequence(bytes(sig))
+    r, body = remove_integer(body)
+    s_, body = remove_integer(body)
+    if rest or body or not (0 < r < k.q and 0 < s_ < k.q):
+        return False
+    w = pow(s_, -1, k.q)
+    z = ref_dsa_z(k, digest)
+    v = (pow(k.g, z * w % k.q, k.p) * pow(k.public_key, r * w % k.q, k.p)
+         % k.p) % k.q
+    return v == r
+
+
+def ref_dsa_sign(k, digest, nonce):
+    from ecdsa.der import encode_sequence, encode_integer
+    r = pow(k.g, nonce, k.p) % k.q
+    s_ = pow(nonce, -1, k.q) * (ref_dsa_z(k, digest) +
+                                k.private_key * r) % k.q
+    return encode_sequence(encode_integer(r), encode_integer(s_))
+
+
 def do_dsa_sig(case):
     k = key("dsa")
     h = case["hash"]
     labels = ["dsa_sig", "mut=" + case["mut"]]
     msg = prg("d%d" % case["s"], case["n"])
+    if case.get("lead0"):
+        # a message whose digest starts with a zero octet (the integer is
+        # shorter than the hash then)
+        for j in range(100000):
+            msg = prg("d%d/%d" % (case["s"], j), case["n"] or 1)
+            if hashlib.new(h, msg).digest()[0] == 0:
+                break
+        labels.append("digest-leading-zero")
     DET.reseed("C10dsa", case["s"])
     sig = k.hashAndSign(bytearray(msg), h)
     ok, sigv = safe_verify(k.hashAndVerify, sig, bytearray(msg), h)
     if not ok:
         return bad("own-signature-rejected:dsa", sigv or "", labels=labels)
     if case["mut"] == "none":
+        # both directions against the FIPS 186-4 computation
+        digest = hashlib.new(h, msg).digest()
+        if not ref_dsa_verify(k, digest, sig):
+            return bad("independent-verifier-rejects:dsa:ref",
+                       "%s, digest %s..." % (h, digest[:2].hex()),
+                       labels=labels)
+        nonce = 2 + int.from_bytes(prg("k%d" % case["s"], 40), "big") % (
+            k.q - 3)
+        ok2, sigv2 = safe_verify(k.hashAndVerify, bytearray(ref_dsa_sign(
+            k, digest, nonce)), bytearray(msg), h)
+        if not ok2:
+            return bad("valid-signature-rejected:dsa",
+                       "%s, digest %s...; %s" % (h, digest[:2].hex(),
+                                                 sigv2 or ""), labels=labels)
         if case.get("ossl"):
             r = ossl_verify("dsa", h, msg, sig)
             if r is False:
@@ -949,6 +1002,8 @@ def cases(draw, tier):
         c.update(hash=draw(st.sampled_from(HASHES)),
                  mut=draw(st.sampled_from(MUTS_RS)),
                  ossl=draw(st.integers(0, 30)) == 0)
+        if c["mut"] == "none" and draw(st.booleans()):
+            c["lead0"] = True
     elif f == "eddsa_sig":
         c.update(key=draw(st.sampled_from(ED_KEYS)),
                  mut=draw(st.sampled_from(
@@ -1003,6 +1058,11 @@ def explicit(tier, seed):
             yield {"f": "ecdsa_sig", "key": name, "hash": "sha384",
                    "mut": m, "s": seed, "pos": 11, "n": 33}
     for m in MUTS_RS:
+        if m == "none":
+            for hh in ("sha1", "sha256", "sha384", "sha512"):
+                for sd in range(3):
+                    yield {"f": "dsa_sig", "hash": hh, "mut": "none",
+                           "s": sd, "n": 20 + sd, "lead0": True}
         yield {"f": "dsa_sig", "hash": "sha256", "mut": m,
                "ossl": m == "none", "s": seed, "pos": 13, "n": 20}
     for name in ED_KEYS:
